@@ -70,6 +70,58 @@ fn case_on<M: aranya_runtime::linear::IoManager>(cs: u64, unsafe_finalize: bool,
             if k.starts_with("max_") { obs.max(&k, v) } else { obs.count(&k, v) }
         }
         any_pf |= out.parallel_finalize;
+        if out.parallel_finalize && unsafe_finalize {
+            // The replica (and its RuntimeBuffers) lives on after the error, as a real client does.
+            // Second attempt: everything not yet committed again, in one transaction (the reference
+            // says whether it must fail again). Third: a down-set without parallel finalize
+            // commands, which must commit and match the reference.
+            let committed = out.committed.clone();
+            let rest: Vec<usize> = (0..model.len()).filter(|&v| !committed.get(v)).collect();
+            if !rest.is_empty() {
+                let mut o2 = Obs::default();
+                let out2 = run_history(&mut rep, &mut model, &[Step::Add(rest), Step::Commit], &committed, &RunCfg::default(), &mut o2);
+                for f in &mut o2.findings {
+                    f.detail = json!({"history": h, "attempt": "retry after parallel finalize, same buffers", "detail": f.detail});
+                }
+                obs.findings.extend(o2.findings);
+                obs.count("retries_after_parallel_finalize", 1);
+                let committed2 = out2.committed.clone();
+                // greedy finalize-safe extension of what is committed
+                let mut safe = committed2.clone();
+                for v in 0..model.len() {
+                    if safe.get(v) || !model.node(v).par.iter().all(|p| safe.get(p)) {
+                        continue;
+                    }
+                    let ok_fin = model.node(v).prio != Prio::Finalize
+                        || (0..model.len()).filter(|&f| safe.get(f) && model.node(f).prio == Prio::Finalize).all(|f| model.anc_eq(f, v) || model.anc_eq(v, f));
+                    let ok_merge = match model.node(v).par {
+                        Par::Merge(l, r) => model.braid(&[l, r]).is_ok(),
+                        _ => true,
+                    };
+                    if ok_fin && ok_merge {
+                        let mut t = safe.clone();
+                        t.set(v);
+                        // the whole frontier must stay braidable
+                        let fr = model.frontier(&t);
+                        if fr.len() == 1 || model.braid(&fr).is_ok() {
+                            safe = t;
+                        }
+                    }
+                }
+                if safe != committed2 {
+                    let s2 = safe.clone();
+                    let c2 = committed2.clone();
+                    let steps3 = history(&model, &|v| s2.get(v) && !c2.get(v), &HistCfg::random(&mut rng), &mut rng);
+                    let mut o3 = Obs::default();
+                    let _ = run_history(&mut rep, &mut model, &steps3, &committed2, &RunCfg::default(), &mut o3);
+                    for f in &mut o3.findings {
+                        f.detail = json!({"history": h, "attempt": "finalize-safe continuation after parallel finalize, same buffers", "detail": f.detail});
+                    }
+                    obs.findings.extend(o3.findings);
+                    obs.count("safe_continuations_after_parallel_finalize", 1);
+                }
+            }
+        }
         if !out.aborted && !out.parallel_finalize && out.committed == all {
             if let Some(v) = final_view(&mut rep) {
                 views.push((h, v));
